@@ -26,6 +26,15 @@
  */
 #include "dtd_env.h"
 
+#ifndef OPW0
+#define OPW0 OP_RW
+#endif
+#ifndef OPW1
+#define OPW1 OP_RW
+#endif
+#ifndef REGION
+#define REGION 0
+#endif
 #define W0 0
 #define W1 4
 static int r, has_w1, p, ins;
@@ -38,7 +47,7 @@ static void run_w0(void)
     for(int k = 1; k < NTASK; k++) VASSERTM(g_sched[k] == 0, "no task behind the first writer is made ready before it completed");
     VASSERTM(g_sched[W0] == 1, "first writer of a fresh local tile is ready at insertion, exactly once");
     VASSERTM(vp_prepare(W0) == PARSEC_HOOK_RETURN_DONE, "first writer is not gated (no readers yet)");
-    VASSERTM(VT[W0].t.super.data[0].data_in == &CP[0], "first writer works on the tile's copy");
+    VASSERTM(VT(W0).t.super.data[0].data_in == &CP(0), "first writer works on the tile's copy");
     VAL[0] = 1;                     /* body */
     vp_complete(W0);
     w0_done = 1;
@@ -56,38 +65,45 @@ int main(void)
 {
     vp_env_init();
     r = IN_RANGE(0, 3); has_w1 = IN_BOOL();
+#ifdef RFIX
+    VASSUME(r == RFIX); r = RFIX;
+#endif
+#ifdef W1FIX
+    VASSUME(has_w1 == W1FIX); has_w1 = W1FIX;
+#endif
 #ifdef P
     p = P;
 #else
     p = IN_RANGE(0, 4);
 #endif
     VASSUME(p <= r + has_w1);
-    int opw0 = IN_BOOL() ? OP_W : OP_RW, opw1 = IN_BOOL() ? OP_W : OP_RW;
-    int region = IN_RANGE(0, 3);
+    /* access modes / flag bits are enumerated by spec.py: a symbolic op word makes every branch on
+     * (op & PARSEC_GET_OP_TYPE) symbolic and with it every task pointer of the chain */
+    const int opw0 = OPW0, opw1 = OPW1, region = REGION;
 
     vp_insert1(W0, 0, opw0 | region); inserted[W0] = 1;
     VASSERTM(vp_refs(W0) == 3, "writer: mempool + executed + 1 write flow references");
-    VASSERTM(TL[0].last_user.task == &VT[W0].t && TL[0].last_writer.task == &VT[W0].t && TL[0].last_user.alive == TASK_IS_ALIVE, "tile chain ends in the inserted writer");
-    VASSERTM(CP[0].super.super.obj_reference_count == 2, "first use retains the tile's copy once");
+    VASSERTM(TL(0).last_user.task == &VT(W0).t && TL(0).last_writer.task == &VT(W0).t && TL(0).last_user.alive == TASK_IS_ALIVE, "tile chain ends in the inserted writer");
+    VASSERTM(CP(0).super.super.obj_reference_count == 2, "first use retains the tile's copy once");
     for(int j = 1; j <= 3; j++) if(j <= r) {
         if(ins == p) run_w0();
         vp_insert1(j, 0, OP_R | region); inserted[j] = 1; ins++;
-        VASSERTM(PARENT_OF(&VT[j].t, 0)->task == &VT[W0].t && PARENT_OF(&VT[j].t, 0)->flow_index == 0, "reader's parent is the last writer");
-        VASSERTM(TL[0].last_user.task == &VT[j].t && TL[0].last_writer.task == &VT[W0].t, "reader becomes last user, last writer unchanged");
+        VASSERTM(PARENT_OF(&VT(j).t, 0)->task == &VT(W0).t && PARENT_OF(&VT(j).t, 0)->flow_index == 0, "reader's parent is the last writer");
+        VASSERTM(TL(0).last_user.task == &VT(j).t && TL(0).last_writer.task == &VT(W0).t, "reader becomes last user, last writer unchanged");
         VASSERTM(vp_refs(j) == 2, "reader: mempool + executed references");
         check_ready_state();
     }
     if(has_w1) {
         if(ins == p) run_w0();
         vp_insert1(W1, 0, opw1 | region); inserted[W1] = 1; ins++;
-        VASSERTM(PARENT_OF(&VT[W1].t, 0)->task == &VT[W0].t, "second writer's parent is the previous writer");
-        VASSERTM(TL[0].last_user.task == &VT[W1].t && TL[0].last_writer.task == &VT[W1].t && TL[0].last_user.alive == TASK_IS_ALIVE, "tile chain ends in the second writer");
+        VASSERTM(PARENT_OF(&VT(W1).t, 0)->task == &VT(W0).t, "second writer's parent is the previous writer");
+        VASSERTM(TL(0).last_user.task == &VT(W1).t && TL(0).last_writer.task == &VT(W1).t && TL(0).last_user.alive == TASK_IS_ALIVE, "tile chain ends in the second writer");
         check_ready_state();
     }
     if(ins == p) run_w0();
     VASSERTM(w0_done, "scenario: W0 executed");
     check_ready_state();
-    VASSERTM(CP[0].readers == r, "copy->readers == number of readers made ready");
+    VASSERTM(CP(0).readers == r, "copy->readers == number of readers made ready");
     VASSERTM(g_freed[W0] == (has_w1 ? 1 : 0), "a completed writer is recycled exactly when the next writer has been linked behind it");
 
     /* readers complete in any order; the second writer polls its gate in between */
@@ -99,26 +115,26 @@ int main(void)
         for(int k = 1; k <= 3; k++) if(k == j) {
             VASSUME(!done[k]);
             VASSERTM(vp_prepare(k) == PARSEC_HOOK_RETURN_DONE, "a reader is never gated (readers may overlap)");
-            VASSERTM(VT[k].t.super.data[0].data_in == &CP[0] && VAL[0] == 1, "reader sees the first writer's value");
+            VASSERTM(VT(k).t.super.data[0].data_in == &CP(0) && VAL[0] == 1, "reader sees the first writer's value");
             vp_complete(k); done[k] = 1;
             VASSERTM(g_freed[k] == 1, "completed reader recycled exactly once");
         }
         left--;
-        VASSERTM(CP[0].readers == left, "copy->readers == readers made ready and not yet completed");
+        VASSERTM(CP(0).readers == left, "copy->readers == readers made ready and not yet completed");
     }
-    VASSERTM(CP[0].readers == 0, "all readers released");
+    VASSERTM(CP(0).readers == 0, "all readers released");
     if(has_w1) {
         VASSERTM(vp_prepare(W1) == PARSEC_HOOK_RETURN_DONE, "second writer passes its gate once the last reader released");
-        VASSERTM(VT[W1].t.super.data[0].data_in == &CP[0] && VAL[0] == 1, "second writer receives the first writer's copy/value");
+        VASSERTM(VT(W1).t.super.data[0].data_in == &CP(0) && VAL[0] == 1, "second writer receives the first writer's copy/value");
         VAL[0] = 2;
         vp_complete(W1);
         VASSERTM(g_freed[W1] == 0 && vp_refs(W1) == 2, "the last writer stays referenced by the tile chain");
-        VASSERTM(TL[0].last_user.task == &VT[W1].t && TL[0].last_user.alive == TASK_IS_NOT_ALIVE, "tile chain: last writer released ownership");
+        VASSERTM(TL(0).last_user.task == &VT(W1).t && TL(0).last_user.alive == TASK_IS_NOT_ALIVE, "tile chain: last writer released ownership");
     }
     VASSERTM(VAL[0] == (has_w1 ? 2 : 1), "tile holds the value of the last writer");
     for(int k = 0; k < NTASK; k++) VASSERTM(g_freed[k] <= 1 && g_sched[k] == inserted[k], "each task ready exactly once, recycled at most once");
     VASSERTM(g_freed[W0] == has_w1 && g_freed[1] == (r >= 1) && g_freed[2] == (r >= 2) && g_freed[3] == (r >= 3), "exactly the superseded tasks were recycled");
-    VASSERTM(CP[0].super.super.obj_reference_count == 2, "copy references balanced: owner + the one task still linked to the tile");
+    VASSERTM(CP(0).super.super.obj_reference_count == 2, "copy references balanced: owner + the one task still linked to the tile");
     VASSERTM(g_nb_tasks == 0 && g_sched_unknown == 0, "termination counter balanced; nothing unknown scheduled/freed");
     if(r == 3 && has_w1 && p == 2) VWITNESS("writer, 3 readers, writer; first writer ran after 2 insertions");
     if(r == 2 && has_w1 && p == 0) VWITNESS("first writer ran before any successor was inserted");
